@@ -41,6 +41,13 @@ def content(ns, nc, mode="ramp", seed=0):
     d = d.astype(np.int16)
     # sync column: all bits vary
     d[:, -1] = ((i[:, 0] * 40503 + 977) % 65536 - 32768).astype(np.int16)
+    # the extreme words (0x8000, 0x7FFF, 0xFFFF, 0x0000, 0x8001) on samples that the LF stream keeps (multiples of 12) and next to them
+    ext = (-32768, 32767, -1, 0, -32767)
+    for j in range(40):
+        p0 = 24 + 12 * j
+        if p0 + 5 < ns:
+            d[p0, -1] = ext[j % 5]
+            d[p0 + 5, -1] = ext[(j + 2) % 5]
     return d
 
 
